@@ -49,11 +49,27 @@ impl El for u32 {
         *self = id
     }
     fn extend_ref(m: &mut griddle::HashMap<u32, u32, crate::hasher::HB>, items: &[(u32, u32)]) -> bool {
-        m.extend(items.iter().map(|(k, v)| (k, v)));
+        // sources with an exact size_hint, one that under-reports (filter: lower bound 0), and a
+        // chain of both, so that every element must be taken whatever the hint says
+        match EXT_VARIANT.with(|c| c.get()) {
+            0 => m.extend(items.iter().map(|(k, v)| (k, v))),
+            1 => m.extend(items.iter().filter(|_| true).map(|(k, v)| (k, v))),
+            _ => {
+                let h = items.len() / 2;
+                m.extend(items[..h].iter().chain(items[h..].iter().filter(|_| true)).map(|(k, v)| (k, v)))
+            }
+        }
         true
     }
     fn set_extend_ref(s: &mut griddle::HashSet<u32, crate::hasher::HB>, items: &[u32]) -> bool {
-        s.extend(items.iter());
+        match EXT_VARIANT.with(|c| c.get()) {
+            0 => s.extend(items.iter()),
+            1 => s.extend(items.iter().filter(|_| true)),
+            _ => {
+                let h = items.len() / 2;
+                s.extend(items[..h].iter().chain(items[h..].iter().filter(|_| true)))
+            }
+        }
         true
     }
 }
@@ -80,6 +96,8 @@ const ST_DEAD: u8 = 2;
 const MAGIC: u64 = 0xC0FF_EE00_D15E_A5E5;
 
 thread_local! {
+    /// which kind of source iterator `extend_ref` uses (0 exact hint, 1 under-reporting, 2 chained)
+    pub static EXT_VARIANT: Cell<u8> = const { Cell::new(0) };
     static STATE: RefCell<Vec<u8>> = const { RefCell::new(Vec::new()) };
     static NLIVE: Cell<u64> = const { Cell::new(0) };
     static FAULT: RefCell<Option<String>> = const { RefCell::new(None) };
